@@ -30,7 +30,8 @@ RULE = ("scripts = TLC-enumerated boundary-alphabet behaviours of Gen_ReceiverRe
         "placement, unbind/rebind, several SSRCs and clock rates); each is executed on the real receiverStream and/or "
         "ReceiverInterceptor (ticks stepped through the verif gate) and the recorded trace is validated by TLC against "
         "Trace_ReceiverReport. distinct_nontrivial = number of distinct recorded traces containing at least one report "
-        "block with a non-zero loss, jitter or LSR field.")
+        "block with a non-zero loss, jitter or LSR field. Traces cut short at a listed known finding (a report interval "
+        "longer than the history; known_finding_hits gives their number) are included in the trace counts up to that point.")
 
 NTP_POOL = [[43690, 4660, 22136, 52719], [1, 0, 0, 1], [65535, 65535, 65535, 65535], [59000, 32768, 1, 0], [0, 0, 0, 0]]
 
